@@ -87,7 +87,26 @@ class Run:
         the same back ends.  The functions are verified in parallel worker
         processes (one symbolic executor each); results are merged here."""
         from concurrent.futures import ThreadPoolExecutor
-        targets = list(targets)
+        all_targets = list(targets)
+        # results are cached per function under a key that hashes every input
+        # of the verification (the repository sources, every source file of
+        # this framework, budget, options): a changed tree is a different key
+        base = cache_base(self.repo, self.budget, opts, carves)
+        cached = {}
+        for t in all_targets + (['<lemmas>'] if lemmas else []) + (
+                ['<facts>' + json.dumps(list(facts))] if facts else []):
+            r = cache_get(base, t)
+            if r is not None:
+                cached[t] = r
+        targets = [t for t in all_targets if t not in cached]
+        need_lemmas = bool(lemmas and '<lemmas>' not in cached)
+        fkey = '<facts>' + json.dumps(list(facts)) if facts else None
+        need_facts = bool(facts and fkey not in cached)
+        self.cache_hits = getattr(self, 'cache_hits', 0) + len(cached)
+        for t, r in cached.items():
+            self.merge_result(r)
+        if not targets and not need_lemmas and not need_facts:
+            return None, None
         nw = workers or min(8, max(1, len(targets)))
         chunks = [[] for _ in range(nw)]
         for i, t in enumerate(targets):
@@ -99,8 +118,9 @@ class Run:
             jobs.append({'targets': ch, 'repo': self.repo,
                          'budget': self.budget, 'opts': opts or {},
                          'carves': carves or {},
-                         'lemmas': bool(lemmas and k == 0),
-                         'facts': list(facts) if k == 0 else [],
+                         'lemmas': bool(need_lemmas and k == 0),
+                         'facts': list(facts) if (k == 0 and need_facts)
+                         else [],
                          'solver_jobs': max(2, 16 // max(1, len(chunks)))})
         t0 = time.time()
 
@@ -122,19 +142,42 @@ class Run:
                 self.broken.append('worker failed for %s: %s' % (
                     r['targets'], r['error']))
                 continue
-            for k in ('symexec_s', 'solve_s'):
-                self.timing[k] = self.timing.get(k, 0) + r['timing'][k]
-            self.functions.update(r['functions'])
-            for q, why in r['unsupported']:
-                self.unsupported.append((q, why))
-            self.broken.extend(r['broken'])
-            self.assumptions.update(r['assumptions'])
+            # split per function for the cache
+            per = {}
             for d in r['items']:
-                it = Item(d['group'], d['kind'], d['label'], d['status'],
-                          d['backend'], d['time'], d['function'], d['props'],
-                          d['witness'], d['note'], d['cls'])
-                self.items.append(it)
+                fn = d['function'] or ''
+                if fn.startswith('lemma:'):
+                    k = fkey if (fkey and fn.startswith('lemma:C')
+                                 and '-' in fn) else '<lemmas>'
+                else:
+                    k = fn
+                per.setdefault(k, []).append(d)
+            clean = not r['broken'] and not r['unsupported']
+            for k, items in per.items():
+                part = {'items': items, 'functions': {
+                    q: i for q, i in r['functions'].items() if q == k},
+                    'unsupported': [], 'broken': [],
+                    'assumptions': r['assumptions'],
+                    'timing': {'symexec_s': 0, 'solve_s': 0}}
+                if clean and all(d['status'] == 'discharged' or
+                                 d['cls'] == 'canary' for d in items):
+                    cache_put(base, k, part)
+            self.merge_result(r)
         return None, None
+
+    def merge_result(self, r):
+        for k in ('symexec_s', 'solve_s'):
+            self.timing[k] = self.timing.get(k, 0) + r['timing'][k]
+        self.functions.update(r['functions'])
+        for q, why in r['unsupported']:
+            self.unsupported.append((q, why))
+        self.broken.extend(r['broken'])
+        self.assumptions.update(r['assumptions'])
+        for d in r['items']:
+            it = Item(d['group'], d['kind'], d['label'], d['status'],
+                      d['backend'], d['time'], d['function'], d['props'],
+                      d['witness'], d['note'], d['cls'])
+            self.items.append(it)
 
     def verify_in_process(self, targets, opts=None, plugins=(), carves=None,
                           lemmas=True, facts=(), solver_jobs=None):
@@ -244,6 +287,68 @@ class Run:
     # ------------------------------------------------------------- report
     def add(self, item):
         self.items.append(item)
+
+
+_DIGEST = {}
+
+
+def tree_digest(root, sub, exts=('.py',)):
+    key = (root, sub)
+    if key in _DIGEST:
+        return _DIGEST[key]
+    h = hashlib.sha256()
+    base = os.path.join(root, sub)
+    for dp, dn, fn in sorted(os.walk(base)):
+        dn.sort()
+        if '__pycache__' in dp or '/.work' in dp or '/replays' in dp \
+                or '/evidence' in dp or '/seeded' in dp or '/.git' in dp:
+            continue
+        for f in sorted(fn):
+            if f.endswith(exts):
+                p = os.path.join(dp, f)
+                h.update(p[len(root):].encode())
+                with open(p, 'rb') as fh:
+                    h.update(fh.read())
+    _DIGEST[key] = h.hexdigest()
+    return _DIGEST[key]
+
+
+def cache_base(repo, budget, opts, carves):
+    h = hashlib.sha256()
+    h.update(tree_digest(repo, 'yatiml').encode())
+    for sub in ('pyvc', 'spec', 'contracts', 'checks'):
+        h.update(tree_digest(VERIF, sub).encode())
+    h.update(json.dumps([budget, opts or {}, carves or {}],
+                        sort_keys=True, default=str).encode())
+    return h.hexdigest()[:24]
+
+
+def cache_path(base, key):
+    d = os.path.join(VERIF, '.work', 'cache', base)
+    return d, os.path.join(d, hashlib.sha256(key.encode()).hexdigest()[:24]
+                           + '.json')
+
+
+def cache_get(base, key):
+    if os.environ.get('VERIF_NO_CACHE'):
+        return None
+    d, p = cache_path(base, key)
+    try:
+        with open(p) as f:
+            return json.load(f)
+    except (OSError, ValueError):
+        return None
+
+
+def cache_put(base, key, value):
+    if os.environ.get('VERIF_NO_CACHE'):
+        return
+    d, p = cache_path(base, key)
+    os.makedirs(d, exist_ok=True)
+    tmp = p + '.%d.tmp' % os.getpid()
+    with open(tmp, 'w') as f:
+        json.dump(value, f, default=str)
+    os.replace(tmp, p)
 
 
 def safe(s):
@@ -446,6 +551,7 @@ def finish(run, prop, t0, write_baseline=False):
         'checker_broken': run.broken,
         'notes': run.notes,
         'repo': run.repo,
+        'verification_cache_hits': getattr(run, 'cache_hits', 0),
     }
     if n_dis != n_obl or exit_code != 0:
         level = 'other'
